@@ -52,9 +52,9 @@ func c19Setup(r *Run) (string, error) {
 }
 
 type c19Ctx struct {
-	kind                     string
-	binding, typ, we, group  string // "" = field absent
-	from, to                 string
+	kind                    string
+	binding, typ, we, group string // "" = field absent
+	from, to                string
 }
 
 func (x c19Ctx) json(vid int) map[string]any {
